@@ -447,3 +447,82 @@ def swapped_arguments(prog, fns):
                 for j in range(i + 1, g.argc):
                     if pn[i] and pn[j] and pn[i] != pn[j] and an[i] == pn[j] and an[j] == pn[i] and g.local_ty(i + 1) == g.local_ty(j + 1):
                         yield f, b, g, i, j, (pn[i], pn[j])
+
+
+def ret_expr(prog, f, cache={}):
+    if f.id not in cache:
+        s_ = Sym(prog, f)
+        rets = [b.idx for b in f.blocks if b.term[0] == "return" and not b.cleanup]
+        cache[f.id] = s_.at(rets[0]).local(0) if len(rets) == 1 else None
+    return cache[f.id]
+
+
+def fn_by_semantics(prog, module, name, arity, probe):
+    """the function `module::name`; if it was renamed, any function of the module (or its impls) with `arity` parameters for
+    which probe(call) is True, where call(*args) evaluates the function's return expression.  Returns (fn | None)."""
+    from .. import formula
+
+    def caller(g):
+        e = ret_expr(prog, g)
+
+        def call(*args):
+            env = {"@prog": prog, "@ieee": True}
+            for i, a in enumerate(args):
+                env[g.local_name(i + 1) or "arg%d" % (i + 1)] = a
+            return formula.evaluate(e, env)
+        return call if e is not None else None
+    cands = [g for g in prog.fns.values() if not g.promoted and g.id.startswith(module + "::") and g.argc == arity and "{closure" not in g.id]
+    named = [g for g in cands if g.item_name == name]
+    if named:
+        return named[0]
+    for g in sorted(cands, key=lambda x: x.id):
+        c = caller(g)
+        if c is None:
+            continue
+        try:
+            if probe(c):
+                return g
+        except Exception:
+            continue
+    return None
+
+
+def lost_updates(prog, owner):
+    """lost-update lint: in a `&mut self` method of `owner`, a field is read, a call that (transitively) stores the same field
+    runs, and then the field is overwritten with a value computed from the earlier read (`let t = self.f + x; ...; self.f = t`).
+    yields (fn, field, call_block, store_span)"""
+    adt = prog.adts.get(owner)
+    if not adt:
+        return
+    fields = [x[0] for v in adt.get("variants", []) for x in v.get("fields", [])]
+    eff = {}
+
+    def stores_field(callee, fld):
+        if not callee or callee not in prog.fns:
+            return False
+        if (callee, fld) not in eff:
+            eff[(callee, fld)] = any(True for g in reach_from(prog, [callee]) for _ in sym.field_stores(prog, adt=owner, field=fld, fns=[g]))
+        return eff[(callee, fld)]
+    for f in [x for x in prog.fns.values() if not x.promoted and x.owner == owner and x.argc >= 1 and x.local_ty(1).startswith("&mut")]:
+        plain = Sym(prog, f, ifconv=False)
+        for fld in fields:
+            stores = [(b, place, rv, span) for (ff, b, kind, place, rv, span, a_, fl_) in sym.field_stores(prog, adt=owner, field=fld, fns=[f]) if kind == "assign" and rv is not None and place[0] == 1]
+            if not stores:
+                continue
+            t = Sym(prog, f, ifconv=False)
+            t._tag_field = (1, fld)
+            for (b, place, rv, span) in stores:
+                idx = [i for i, st in enumerate(f.blocks[b].stmts) if st[0] == "=" and st[1] == place and st[2] is rv]
+                e = t.at(b, idx[0] if idx else "t").rvalue(rv)
+                reads = [x[2] for x in walk(e) if x[0] == "fieldat" and x[1] == fld]
+                for (rb, ri) in reads:
+                    if (rb, ri) == (b, idx[0] if idx else None):
+                        continue
+                    for cb, site in f.calls():
+                        if not stores_field(site.get("callee"), fld):
+                            continue
+                        # read -> call -> store
+                        after_read = (cb == rb) or plain._reaches(rb, cb)      # the call is the terminator of cb: after any statement of rb
+                        before_store = (cb != b and plain._reaches(cb, b))
+                        if after_read and before_store and rb != b:
+                            yield f, fld, cb, span
